@@ -11,6 +11,7 @@ import QrlewModel.Model.Clip
 import QrlewModel.Model.Tau
 import QrlewModel.Model.Rel
 import QrlewModel.Model.Quote
+import QrlewModel.Model.Namer
 /-!
 JSON-lines driver over the executable model.  One input line = one harness line
 (`{"stream":..,"case":..,..}`); one output line = `{"model": <canonical output>}`.
@@ -351,6 +352,38 @@ def runSizes (c : Json) : Option Json := do
     | _ => none
   pure (Json.arr #[Json.num (JsonNumber.fromNat 0), Json.num (JsonNumber.fromNat mx)])
 
+def alphabetOf (n : Int) : List Char :=
+  if n == 37 then Namer.base37 else if n == 36 then Namer.base37.take 36
+  else if n == 62 then "0123456789abcdefghijklmnopqrstuvwxyzABCDEFGHIJKLMNOPQRSTUVWXYZ".toList else "01".toList
+
+/-- namer operations against the model; `encode` ops do not touch the counter -/
+def runNamer (c aux : Json) : Option Json := do
+  let ops ← (c.getObjVal? "ops").toOption >>= fun a => a.getArr?.toOption
+  let hashes ← (aux.getObjVal? "hashes").toOption >>= fun a => a.getArr?.toOption
+  let mut st : Namer.Counter := []
+  let mut outs : Array Json := #[]
+  for i in [0:ops.size] do
+    let op := ops[i]!
+    let kind ← (op.getArrVal? 0).toOption >>= fun t => t.getStr?.toOption
+    match kind with
+    | "name" =>
+      let p ← (op.getArrVal? 1).toOption >>= fun t => t.getStr?.toOption
+      let (st', o) := Namer.step st (.name p); st := st'; outs := outs.push (Json.str o.text)
+    | "id" =>
+      let p ← (op.getArrVal? 1).toOption >>= fun t => t.getStr?.toOption
+      let (st', o) := Namer.step st (.id p); st := st'; outs := outs.push (Json.str o.text)
+    | "encode" =>
+      let a ← (op.getArrVal? 1).toOption >>= jInt?
+      let len ← (op.getArrVal? 2).toOption >>= jInt?
+      let x ← (op.getArrVal? 3).toOption >>= fun t => t.getStr?.toOption >>= String.toNat?
+      outs := outs.push (Json.str (String.ofList (Namer.encode (alphabetOf a) len.toNat x)))
+    | "content" =>
+      let p ← (op.getArrVal? 1).toOption >>= fun t => t.getStr?.toOption
+      let h ← (hashes[i]?) >>= fun t => t.getStr?.toOption >>= String.toNat?
+      let (st', o) := Namer.step st (.content p h); st := st'; outs := outs.push (Json.str o.text)
+    | _ => none
+  pure (Json.arr outs)
+
 def runValues (c : Json) : Option Json := do
   let vs ← (c.getObjVal? "vals").toOption >>= fun a => a.getArr?.toOption
   let ns ← vs.toList.mapM jInt?
@@ -372,6 +405,7 @@ def handle (line : String) : Json :=
       | "limit" => runLimit c
       | "sizes" => runSizes c
       | "values" => runValues c
+      | "namer" => runNamer c ((j.getObjVal? "aux").toOption.getD Json.null)
       | "clip" => runClip c ((j.getObjVal? "aux").toOption.getD Json.null)
       | "dpevent" => runDpEvent c
       | "dpquery" => runDpQuery ((j.getObjVal? "aux").toOption.getD Json.null)
